@@ -42,6 +42,17 @@ def fresh_str(x):
     return x if not isinstance(x, str) else "".join(list(x))
 
 
+GRAD_CTXS = ("no_grad", "inference", "grad")
+
+
+def grad_ctx(name):
+    """The autograd context a caller may be in when it asks for a solution: `torch.no_grad()`, `torch.inference_mode()` (the
+    evaluation context PyTorch recommends; `torch.enable_grad()` does not switch recording back on inside it) or gradients
+    enabled with nothing requiring them. What the library returns must not depend on it."""
+    import torch
+    return {"no_grad": torch.no_grad, "inference": torch.inference_mode, "grad": torch.enable_grad}[name or "no_grad"]()
+
+
 def die_with_parent():
     """Worker processes must not outlive a check that is stopped from outside (PR_SET_PDEATHSIG, Linux only)."""
     try:
